@@ -94,7 +94,7 @@ func concurrentCase(r *vk.Run, idx int) error {
 		go func(g int) {
 			defer wg.Done()
 			for k := 0; k < K; k++ {
-				ctx, cancel := context.WithTimeout(context.Background(), 20*time.Second)
+				ctx, cancel := context.WithTimeout(context.Background(), 120*time.Second)
 				tx, err := w.st.NewWriteOnlyTx(ctx)
 				if err == nil {
 					for _, e := range specs[g][k] {
